@@ -4,7 +4,7 @@ from __future__ import annotations
 
 import copy
 
-from .. import core, gen, hist, model
+from .. import core, gen, hist, model, seams
 from . import PropBase, steps_with_ids
 
 FAULTS = ("clear", "clear_typing", "shrink", "mutate_result", "mutate_input", "twin", "clock", "zone", "stack")
@@ -139,7 +139,7 @@ class C12(PropBase):
     def pre_run(self, sess):
         sess.seen_containers = {}
         sess.keepalive = []
-        sess.pending_alias = []
+
 
     def comparable(self, sess, i, step):
         for k in ("x", "v"):
@@ -204,31 +204,15 @@ class C12(PropBase):
         if mine != cold["canon"]:
             sess.probes["cold_mismatch"] += 1
             sess.violation("cold-mismatch", i, {"here": _short(mine), "cold": _short(cold["canon"]), "op": step["op"]})
-            sess.pending_alias.append((i, cstep, mine, cold["canon"]))
-
-    def finish(self, sess):
-        """Causality experiment for the union-order-alias finding: after clearing every
-        memo the step alone must agree with its cold execution, and replaying just one
-        earlier step that spells the same union in another order must bring the same
-        wrong outcome back.  Only then is the violation attributed to that finding."""
-        steps = sess.history["steps"]
-        for (i, cstep, mine, cold) in sess.pending_alias:
             confirmed = False
-            alias = _alias_steps(steps, i)
-            if alias:
-                sess.memos.clear("all")
-                alone = sess.exec_op(i, dict(cstep, id=-1000 - i))
-                if alone is not None and alone.canon() == cold:
-                    for e in alias:
-                        sess.memos.clear("all")
-                        sess.exec_op(0, dict(e, id=-2000 - i))
-                        again = sess.exec_op(i, dict(cstep, id=-3000 - i))
-                        if again is not None and again.canon() == mine:
-                            confirmed = True
-                            break
-            for v in sess.violations:
-                if v["oracle"] == "cold-mismatch" and v["step"] == i:
-                    v["detail"]["alias_confirmed"] = confirmed
+            if isinstance(cstep.get("t"), dict):
+                for cand in _reorderings(sess.history, i, cstep["t"]):
+                    alt = sess.cold_exec(dict(cstep, t=cand))
+                    sess.probes["alias_hypotheses_tested"] += 1
+                    if alt.get("canon") == mine:
+                        confirmed = True
+                        break
+            sess.violations[-1]["detail"]["alias_confirmed"] = confirmed
 
     # ------------------------------------------------------------------ classification
     def classify(self, history, v):
@@ -271,6 +255,115 @@ def _alias_steps(steps, i):
     return out
 
 
+def _nkey(t) -> str:
+    """Key of a type AST up to what typing's equality ignores: member order of unions and of
+    Literal values, and the spelling of a union."""
+    if not isinstance(t, dict):
+        return core.jdump(t)
+    k = t.get("k")
+    if k == "union":
+        return "U(" + ",".join(sorted(_nkey(a) for a in t["a"])) + ")"
+    if k == "lit":
+        return "L(" + ",".join(sorted(type(v).__name__ + ":" + repr(v) for v in t["v"])) + ")"
+    a = t.get("a")
+    if isinstance(a, dict):
+        inner = _nkey(a)
+    elif isinstance(a, list):
+        inner = ",".join(_nkey(x) for x in a)
+    else:
+        inner = ""
+    rest = {kk: vv for kk, vv in t.items() if kk not in ("a", "sp")}
+    return core.jdump(rest) + "<" + inner + ">"
+
+
+def _reorderings(history, i, t, cap=24):
+    """Type ASTs equal to ``t`` except that union nodes take a member order in which the same
+    member set was spelled earlier in the run (in an earlier step or in a declaration of the
+    world).  The alias hypothesis says: the process behaved as a cold process would for one of
+    these."""
+    seen: dict = {}
+    lseen: dict = {}
+
+    def note(ty):
+        if isinstance(ty, dict):
+            for n in model.twalk(ty):
+                if n["k"] == "union":
+                    fs = frozenset(_nkey(a) for a in n["a"])
+                    seen.setdefault(fs, [])
+                    order = [_nkey(a) for a in n["a"]]
+                    if order not in [o for o, _ in seen[fs]]:
+                        seen[fs].append((order, n["a"]))
+                elif n["k"] == "lit":
+                    lseen.setdefault(_nkey(n), [])
+                    if n["v"] not in lseen[_nkey(n)]:
+                        lseen[_nkey(n)].append(n["v"])
+
+    for m in (history.get("world") or {}).get("modules", ()):
+        for d in m["decls"]:
+            note(d.get("t"))
+            for f in d.get("fields", ()):
+                note(f.get("t"))
+    for e in history["steps"][:i]:
+        note(e.get("t"))
+    note(t)
+    out = []
+    base = core.jdump(t)
+
+    def rec(node):
+        """All variants of a node (list), own spelling first."""
+        if not isinstance(node, dict):
+            return [node]
+        a = node.get("a")
+        if isinstance(a, dict):
+            kids = [dict(node, a=x) for x in rec(a)]
+        elif isinstance(a, list):
+            combos = [[]]
+            for child in a:
+                vs = rec(child)
+                combos = [c + [x] for c in combos for x in vs][:cap]
+            kids = [dict(node, a=c) for c in combos]
+        elif node.get("k") == "lit":
+            kids = [node] + [dict(node, v=v) for v in lseen.get(_nkey(node), ()) if v != node["v"]]
+        else:
+            kids = [node]
+        if node.get("k") != "union":
+            return kids[:cap]
+        res = []
+        for kvar in kids:
+            res.append(kvar)
+            fs = frozenset(_nkey(x) for x in node["a"])
+            by_key = {_nkey(orig): new for orig, new in zip(node["a"], kvar["a"])}
+            for order, _members in seen.get(fs, ()):
+                re_a = [by_key[k] for k in order if k in by_key]
+                if len(re_a) == len(kvar["a"]) and [_nkey(x) for x in re_a] != [_nkey(x) for x in kvar["a"]]:
+                    alt = dict(kvar, a=re_a)
+                    if alt.get("sp") == "optional" and not (len(re_a) == 2 and re_a[1].get("k") == "none"):
+                        alt["sp"] = "typing"
+                    res.append(alt)
+        return res[:cap]
+
+    for cand in rec(t):
+        if core.jdump(cand) != base:
+            out.append(cand)
+    return out[:cap]
+
+
+def _same_set_steps(steps, i):
+    """Earlier non-fault steps whose type contains a union with the member set of a union of
+    step i (any order)."""
+    mine = {fs for fs, _ in _union_sets(steps[i].get("t"))}
+    out = []
+    for e in steps[:i]:
+        if e["op"] in ("clear", "clear_typing"):
+            out.append(e)  # cache clears decide which spelling is built first afterwards
+            continue
+        if e["op"] in hist.seams_fault_ops():
+            continue
+        if any(fs in mine for fs, _ in _union_sets(e.get("t"))):
+            out.append(e)
+    return out
+
+
 def classify_history(history, v) -> str:
     """Named, narrow predicates over the (minimised) failing history."""
     steps = history["steps"]
@@ -284,7 +377,7 @@ def classify_history(history, v) -> str:
     if oracle == "cold-mismatch":
         # union member-order alias: same member set seen earlier in another order, and
         # the in-process causality experiment (C12.finish) confirmed it
-        if v.get("detail", {}).get("alias_confirmed") and _alias_steps(steps, i):
+        if v.get("detail", {}).get("alias_confirmed"):
             return "union-order-alias"
         if any(e["op"] == "mutate_result" for e in earlier):
             return "after-result-mutation"
